@@ -18,7 +18,7 @@ n_kwargs = z3.Function('n_kwargs', Z.Node, Z.I)
 
 
 class MapContract(LibModel):
-    props = ('C01', 'C16', 'C19')
+    props = ('C01', 'C16', 'C19', 'C07')
     modes = ('sound', 'witness')
 
     def modenv(self):
